@@ -148,7 +148,9 @@ func (h *hostileCtx) hostileInput() string {
 		paths := []string{"/", "/connect", "/callback", "/callback?state=x&code=y", "/tokeninfo", "/tokeninfo?access_token=" + strings.Repeat("A", 3000), "/metrics", gwPath, "/KdcProxy", "/remoteDesktopGateway", "/%zz", "/connect?host=%00"}
 		methods := []string{"GET", "POST", "RDG_OUT_DATA", "RDG_IN_DATA", "OPTIONS", "\x00\x01", "GET GET", strings.Repeat("M", 300)}
 		p, m := paths[t.Choose(len(paths))], methods[t.Choose(len(methods))]
-		extra := []string{"", "Cookie: RDPGWSESSION=garbage\r\n", "X-Forwarded-For: " + strings.Repeat("1.2.3.4, ", 200) + "\r\n", "Rdg-Connection-Id: \x7f\xff\r\n", "Content-Length: -5\r\n", "Transfer-Encoding: chunked\r\nContent-Length: 3\r\n", "Upgrade: websocket\r\nConnection: Upgrade\r\n", "Host: \r\n"}[t.Choose(8)]
+		extra := []string{"", "Cookie: RDPGWSESSION=garbage\r\n", "X-Forwarded-For: " + strings.Repeat("1.2.3.4, ", 200) + "\r\n", "Rdg-Connection-Id: \x7f\xff\r\n", "Content-Length: -5\r\n", "Transfer-Encoding: chunked\r\nContent-Length: 3\r\n", "Upgrade: websocket\r\nConnection: Upgrade\r\n", "Host: \r\n",
+			// header values that are not UTF-8 (legal octets in a field value), short and long
+			"User-Agent: MS-RDGateway/\xff\xfe\xfd 1.0\r\n", "User-Agent: J\xfcrgens Client/" + strings.Repeat("\xc3", 41) + "\r\n", "Accept-Language: \xe4\xf6\xfc\r\nReferer: \x80\x81\r\n", "User-Agent: " + strings.Repeat("x", 31) + "\xc3\xa4 rest\r\n"}[t.Choose(12)]
 		h.do("raw", fmt.Sprintf("%s %s HTTP/1.1\r\nHost: gw.test\r\nConnection: close\r\n%s\r\n", m, p, extra))
 		return fmt.Sprintf("http:%q %q +%q", m, p, strings.SplitN(extra, ":", 2)[0])
 	case 1: // Authorization header strings for every scheme
